@@ -424,13 +424,14 @@ impl FlexScen {
     fn page_all(&self, limit: Option<u32>, f: &dyn Fn(Option<String>, Option<u32>) -> Option<Vec<(String, String)>>) -> String {
         let mut out: Vec<String> = vec![];
         let mut cursor: Option<String> = None;
-        for _ in 0..10_000 {
+        let mut guard = WalkGuard::default();
+        for _ in 0..MAX_WALK_PAGES {
             match f(cursor.clone(), limit) {
                 None => return "!err".to_string(),
                 Some(p) if p.is_empty() => break,
                 Some(p) => {
                     let next = Some(p.last().unwrap().0.clone());
-                    if next == cursor {
+                    if next == cursor || !guard.fresh(&next) {
                         break; // no progress (a defect in the code under test): do not walk forever
                     }
                     cursor = next;
